@@ -191,7 +191,7 @@ OpsOn(slots, kinds, T, V, A, S, isCmd) ==
 AllOps(T, V, A, S) ==
   {o \in OpsOn(MemSlots, Kinds, T, V, A, S, FALSE) \cup OpsOn(CmdSlots, Kinds, T, V, A, S, TRUE) : o.k \in Kinds}
 SingleOps == AllOps(Tombs, Vals, Ats, SVs)
-BOps      == AllOps(Tombs, BVals, BVals \cap Ats, BVals \cap SVs)
+BOps      == AllOps(Tombs, BVals, {1} \cap Ats, BVals \cap SVs)
 Cursors(u) == {ZeroCur} \cup (IF pass[u].on THEN {pass[u].cur} ELSE {})
                 \cup (IF Stray THEN {[c |-> c, at |-> a] : c \in Chans, a \in Ats} ELSE {})
 
